@@ -323,6 +323,55 @@ def run_tuner(spec, tp):
 
 
 # --------------------------------------------------------------------------
+# the event queue alone: SimulatorState as a binary heap array
+# --------------------------------------------------------------------------
+def gen_heap_ops(rng):
+    grid = rng.choice([1, 2, 4, 64])
+    ntr = rng.randint(1, 5)
+    ops, now = [], 0.0
+    for _ in range(rng.choice([10, 25, 60])):
+        r = rng.random()
+        if r < 0.55:
+            ops.append(["push", rng.randrange(ntr), now + rng.randint(0, 6 * grid) / grid if grid > 1 or rng.random() < 0.8 else rng.uniform(0, 5)])
+        elif r < 0.85:
+            now += rng.choice([0.0, 0.5, 1.0, 3.0])
+            for _ in range(rng.randint(1, 4)):
+                ops.append(["next", now])
+        else:
+            ops.append(["remove", rng.randrange(ntr)])
+    return ops
+
+
+def run_heap_cases(ctx, replay):
+    rng = ctx.rng
+    if replay is not None:
+        todo = [replay["ops"]] if replay.get("kind") == "heap" else []
+    else:
+        todo = [gen_heap_ops(rng) for _ in range(ctx.n(150, 2000))]
+    cases, meta = [], []
+    for ops in todo:
+        steps = sh.run_heap_ops(ops)
+        case = dict(kind="heap", ops=ops)
+        nrem = sum(1 for o in ops if o[0] == "remove")
+        ctx.count(("heap", ops), nontrivial=nrem > 0 and max(len(s["arr"]) for s in steps) >= 4)
+        ctx.h("case_kind", "heap")
+        ctx.h("heap_max_size", max(len(s["arr"]) for s in steps) // 5 * 5)
+        for what, sig in sh.check_heap_steps(steps)[:2]:
+            ctx.violation("property", what, case=case, signature=dict(sig, case_kind="heap"))
+        ctx.traces_validated += 1
+        cases.append(sh.coq_heap_case(steps))
+        meta.append((case, steps))
+    if cases:
+        ctx.sample(dict(kind="heap", ops=meta[0][0]["ops"][:10], array_after_last_call=meta[0][1][-1]["arr"]), limit=5)
+        import common
+        getattr(common, "_case_dir", lambda: None)()
+        for i in ctx.coq_bad_cases("heap", sh.IMPORTS, sh.HEAP_PRELUDE, "chk_heap_case", cases, shard=40, jobs=8):
+            ctx.violation("correspondence", "heapq array of SimulatorState.event_heap and the model's binary heap (model/Sim.v bh_*) differ, "
+                          "or the array is not a heap: ops %s" % str(meta[i][0]["ops"])[:500], case=meta[i][0], failing_input=False,
+                          broken="correspondence chk_heap_case (model/Sim.v bh_push / bh_pop / bh_heapify)")
+
+
+# --------------------------------------------------------------------------
 def nontrivial(log):
     kinds = {op["kind"] for op in log}
     nres = sum(len(op.get("results", [])) for op in log)
@@ -343,6 +392,9 @@ def run(ctx, replay=None):
                 "delay_stop > epoch time, checkpointing on/off, max_resource_attr on/off, fixed or per-trial seed, a few "
                 "illegal calls); (b) whole runs of the real Tuner + SimulatorCallback with FIFO / Hyperband stopping / "
                 "promotion. non-trivial = at least 2 delivered results, a fetch and a pause or stop; distinct by content hash")
+    run_heap_cases(ctx, replay)
+    if replay is not None and replay.get("kind") == "heap":
+        return
     cases, meta = [], []
     todo = []
     if replay is not None:
